@@ -1,9 +1,9 @@
 import Gmx.Model.Funding
 import Gmx.Driver.Util
--- ENGINE fund fundEngine stateless
+-- ENGINE fund Fund.fundEngine stateless
 /-! driver engine `fund` — C12 -/
-namespace Gmx.Drv
-open Gmx
+namespace Gmx.Drv.Fund
+open Gmx Gmx.Drv
 
 def fundShowErr : FErr → String
   | .comp => "err comp" | .conv => "err conv" | .arg => "err arg"
@@ -59,4 +59,4 @@ def fundEngine (args : List String) : String :=
     | _, _, _, _ => "bad-op"
   | _ => "bad-op"
 
-end Gmx.Drv
+end Gmx.Drv.Fund
